@@ -222,17 +222,20 @@ MapLits(n) == {<<VarS("m", MapOfEntries(es)), P(0), ES(Id("m"))>> : es \in Entry
 Lv(i) == "v" \o ToString(i)
 Pn(i) == "p" \o ToString(i)
 Routes == {"returned", "list", "map", "mapcb", "try", "sorted", "fromgo"}
-RECURSIVE Nest(_,_,_,_)
+\* pad extra locals per function: with more than 8 local slots the VM keeps a frame's locals in separately
+\* allocated storage that captured cells point into
+Pad(i, pad) == [j \in 1..pad |-> VarS("q" \o ToString(i) \o "x" \o ToString(j), I(j))]
+RECURSIVE Nest(_,_,_,_,_)
 \* body of level i (1-based) of a chain of depth d
-Nest(i, d, rd, wr) ==
-  IF i = d THEN <<AssignS(Lv(wr), "+=", I(10)), ES(Bin("+", Bin("*", Id(Lv(rd)), I(100)), Id(Lv(wr))))>>
-  ELSE <<VarS(Lv(i + 1), I(i + 1)), Ret(FuncE("", <<>>, Nest(i + 1, d, rd, wr)))>>
+Nest(i, d, rd, wr, pad) ==
+  IF i = d THEN Pad(i, pad) \o <<AssignS(Lv(wr), "+=", I(10)), ES(Bin("+", Bin("*", Id(Lv(rd)), I(100)), Id(Lv(wr))))>>
+  ELSE Pad(i, pad) \o <<VarS(Lv(i + 1), I(i + 1)), Ret(FuncE("", <<>>, Nest(i + 1, d, rd, wr, pad)))>>
 \* chain(d): function taking no args, returning nested closures until depth d
-Chain(d, rd, wr) == FuncE("", <<>>, Nest(1, d, rd, wr))
+Chain(d, rd, wr, pad) == FuncE("", <<>>, Nest(1, d, rd, wr, pad))
 RECURSIVE Unwrap(_,_)
 Unwrap(e, n) == IF n = 0 THEN e ELSE Unwrap(CallE(e, <<>>), n - 1)
-ClosureProg(d, rd, wr, route, twice) ==
-  LET mk == <<VarS("v1", I(1)), VarS("mk", Chain(d, rd, wr))>>
+ClosureProg(d, rd, wr, route, twice, pad) ==
+  LET mk == <<VarS("v1", I(1)), VarS("mk", Chain(d, rd, wr, pad))>>
       inner(nm) == VarS(nm, Unwrap(Id("mk"), d - 1))       \* the innermost closure, all ancestors returned
       call(nm) == CallE(Id(nm), <<>>)
   IN CASE route = "returned" ->
@@ -262,6 +265,6 @@ ClosureProg(d, rd, wr, route, twice) ==
                                  FuncE("", <<Param("x"), Param("y")>>, <<ES(call("g")), ES(Bin("<", Id("x"), Id("y")))>>)>>)),
                     PV(2, call("g")), ES(Id("v1"))>>
 \* only well-scoped scenarios: the innermost function of a chain of depth d can see v_1 .. v_d
-Closures(maxd) == UNION {{ClosureProg(d, rd, wr, route, twice) :
-                            rd \in 1..d, wr \in 1..d, route \in Routes, twice \in BOOLEAN} : d \in 1..maxd}
+Closures(maxd) == UNION {{ClosureProg(d, rd, wr, route, twice, pad) :
+                            rd \in 1..d, wr \in 1..d, route \in Routes, twice \in BOOLEAN, pad \in {0, 9}} : d \in 1..maxd}
 =============================================================================
